@@ -96,7 +96,7 @@ Fixpoint chain_ok (track : N) (s : state) (bs : list (block * list outcome * lis
   match bs with
   | [] => true
   | (b, outs, obs) :: r =>
-      let '(s', o) := run_block track s b in
+      let '(s', o) := run_block false track s b in
       list_eqb outcome_eqb o outs && forallb (obs_ok (cache_reset s')) obs && chain_ok track s' r
   end.
 
